@@ -37,32 +37,28 @@ def run(ctx):
         sc = af.scenario_from_cex(cex, "cex-blocking-upgrade-send", "local")
         scenarios.append(sc)
         ctx.sample({"adversarial_scenario": sc["name"], "steps": sc["steps"][:8], "n_steps": len(sc["steps"])})
+    cex2, res2 = af.tlc_cex(ctx, "MC_Agent_bad_remote_backpressure.cfg", "bad_remote_backpressure")
+    cov["per_config"]["MC_Agent_bad_remote_backpressure.cfg"] = {"status": res2["status"], "expected": "violation"}
+    # the same wedge at the real capacities (10 uploads + 10 queued + 2): a master that accepts and never answers
+    up = {"u1": {"present": True, "pw": "p1", "set": 1, "adm": False}, "u2": {"present": True, "pw": "p2", "set": 2, "adm": True}}
+    scenarios.append({"name": "stalled-master-burst", "mode": "stalled", "default": 2, "files": up,
+                      "passwords": af.PASSWORDS, "gated": False, "seed": 1,
+                      "steps": [{"t": "load", "clients": 1, "calls": 40, "kinds": ["auth"], "users": ["u1"], "pws": ["p1"]},
+                                {"t": "load", "clients": 4, "calls": 6, "kinds": ["auth", "list", "update"], "users": ["u1", "u2"],
+                                 "pws": ["p1", "p2"]}, {"t": "free"}]})
+    # transient accept errors (EMFILE) must not stop the saslauthd frontend from answering
+    scenarios.append({"name": "sasl-accept-emfile", "mode": "", "default": 2, "files": up, "passwords": af.PASSWORDS,
+                      "gated": False, "seed": 1, "frontends": True, "http_admin": ["u2", "p2"],
+                      "steps": [{"t": "fdstorm", "u": "u1", "p": "p1"}, {"t": "free"}]})
     # 3. seeded concurrent load, all modes (an unreachable master for remote)
     nload = 6 if not thorough else 30
     for i in range(nload):
         mode = ["local", "", "http://127.0.0.1:9/api/update"][i % 3]
-        scenarios.append(load_scenario("load-%d-%s" % (i, mode or "off"), mode, ctx.seed * 100 + i,
-                                       clients=16 if i % 2 else 6, calls=12 if not thorough else 40))
+        sc = load_scenario("load-%d-%s" % (i, (mode or "off")[:6]), mode, ctx.seed * 100 + i,
+                           clients=16 if i % 2 else 6, calls=12 if not thorough else 40)
+        scenarios.append(af.with_frontends(sc, i) if i % 2 else sc)
     results, events = af.run_scenarios(ctx, scenarios, "c10")
-    hung = [r for r in results if r["hung"]]
-    for r in hung:
-        key = "wedge:" + r["where"].replace(" ", "-")
-        ctx.violation("C10", key, "scenario %s: %s\n%s" % (r["name"], r["where"], r.get("stacks", "")[:1500]),
-                      scenario=[s for s in scenarios if s["name"] == r["name"]][0])
-    # 4. every recorded run must be a behaviour of the Agent spec (responses, notify, upgrade path)
-    nval = 0
-    for mode, mname in (("local", "local"), ("", "off"), ("http://127.0.0.1:9/api/update", "remote")):
-        evs = []
-        for r, sc in zip(results, scenarios):
-            if sc["mode"] == mode and not r["hung"]:
-                evs += events[r["first"]:r["last"]]
-                nval += 1
-        if not evs:
-            continue
-        ok, tres = af.validate(ctx, evs, mname, "c10-" + mname)
-        if ok is False:
-            prop, key, detail = af.classify_rejection(evs, tres, "C10")
-            ctx.violation(prop, key, detail)
+    nval = af.judge(ctx, scenarios, results, events, "c10", "C10")
     cov["traces_validated_against_impl"] = nval
     cov["evaluations"] = len(events)
     cov["distinct_nontrivial"] = len({json.dumps({k: e.get(k) for k in ("ev", "c", "k", "u", "p", "a", "ok")}) for e in events})
